@@ -34,6 +34,34 @@
 (*              once: TaskSet::wait() can return (CountersSane / TsWaitImpliesReady).  *)
 (*  stuck = 0   no caller of get() / wait() sleeps forever (deadlock freedom).         *)
 (* No wall-clock judgement, no ordering between threads is assumed.                    *)
+(*                                                                                     *)
+(* Second class of records (drv_future --race ... --timed M): "e":"TimedRace", one per *)
+(* batch of rounds in which a kNotDeferred future (constructor / dispenso::async, on   *)
+(* the ThreadPool / TaskSet / ConcurrentTaskSet) waits behind a gate task on the pool's *)
+(* only worker while its owner and 3 poller threads (holding copies) spin on           *)
+(* wait_for(1ns..3us) / wait_until(now + 1ns..3us); the owner opens the gate when all  *)
+(* are spinning, the worker claims and runs the functor, which blocks until the owner  *)
+(* releases it some polls later and sets a flag `finished` as its last statement;      *)
+(* everybody polls on until ready, the owner calls get().  The record carries all      *)
+(* fields above (same meaning, same judgements; nd = rounds, inl = functors run by a   *)
+(* waiter) plus                                                                        *)
+(*    "early":timed waits that reported future_status::ready although `finished` of    *)
+(*            that round was not visible to the caller afterwards,                     *)
+(*    "unstable":correct ready reports followed by a NOT-ready wait_for(0) / is_ready()*)
+(*            of the same thread on the same handle,                                   *)
+(*    "polls":timed waits issued, "pre":time-outs returned before the functor was      *)
+(*            claimed, "mid":owner's timed waits issued and ended while the functor ran *)
+(*            (polls / pre / mid: coverage only, not judged here).                     *)
+(*  early = 0   "every getter sees its result" (ReadyImpliesRan / NeverEarly): ready   *)
+(*              is reported only after an acquire load of kReady, which the runner     *)
+(*              stores (release) after the functor returned and its value was stored;  *)
+(*              `finished := id` is sequenced before that return, so it happens-before *)
+(*              the caller's load of `finished`.  A kNotDeferred future is never run   *)
+(*              by a timed waiter, so the status word changes twice under the waiters  *)
+(*              (kNotStarted -> kRunning -> kReady); only the second change is "done", *)
+(*              whatever the kernel reports about the first (EAGAIN, spurious wake).   *)
+(*  unstable=0  kReady is terminal while a handle is held (no action of Future.tla     *)
+(*              leaves kReady), and wait_for(0) / is_ready() are loads of that word.   *)
 EXTENDS Integers, Sequences, TLC, Json, IOUtils
 
 ObsLog == ndJsonDeserialize(IOEnv.TRACE)
@@ -51,8 +79,14 @@ NoLeakObs(rec) == rec.live = 0
 TaskSetSlotsReleasedOnce(rec) == rec.tsc = 0
 NoLostWaiter(rec) == rec.stuck = 0
 
+\* records of the first class have no such fields: the guard is evaluated first
+TimedReadyMeansDone(rec) == rec.e = "TimedRace" => rec.early = 0
+ReadyIsStable(rec) == rec.e = "TimedRace" => rec.unstable = 0
+
 RecOK(rec) ==
   /\ NoLostWaiter(rec)
+  /\ TimedReadyMeansDone(rec)
+  /\ ReadyIsStable(rec)
   /\ FuncOnceObs(rec)
   /\ EveryFunctorRan(rec)
   /\ GetsAgreeObs(rec)
@@ -64,6 +98,7 @@ RecOK(rec) ==
 RaceFuncOnce == l > Len(ObsLog) \/ (NoLostWaiter(ObsLog[l]) /\ FuncOnceObs(ObsLog[l]) /\ EveryFunctorRan(ObsLog[l]))
 RaceGetsAgree == l > Len(ObsLog) \/ GetsAgreeObs(ObsLog[l])
 RaceReleasedOnce == l > Len(ObsLog) \/ (TaskSetSlotsReleasedOnce(ObsLog[l]) /\ FunctorDestroyedOnce(ObsLog[l]) /\ NoLeakObs(ObsLog[l]))
+RaceTimedWaitReadyMeansResultExists == l > Len(ObsLog) \/ (TimedReadyMeansDone(ObsLog[l]) /\ ReadyIsStable(ObsLog[l]))
 RecordsOK == l > Len(ObsLog) \/ RecOK(ObsLog[l])
 
 ObsAccepted ==
